@@ -203,7 +203,8 @@ def run(ctx):
         ctx.extra["operator_sequences_depth_3_4_simulated"] = len(deep)
         hists += deep
     # 2. concretise.  quick: every sequence once; thorough: every sequence under `rounds` different configurations
-    rounds = 1 if quick else 5
+    # (five configurations per sequence made 430 000 records: 16 GB in this process alone, killed by the kernel when the machine was busy)
+    rounds = 1 if quick else 2
     items = []
     order = list(range(len(hists)))
     rnd.shuffle(order)
@@ -374,7 +375,7 @@ def run(ctx):
         if not passed:
             raise core.Machinery("binding self-check failed for %s: original=%r corrupted=%r" % (family, gv, bv))
     ctx.rule = ("verify: operator sequences enumerated by TLC from sys/SignChannel (all of depth <= 2 over 7 scheme/encoding pairs; thorough: plus simulated depth 3-4 and "
-                "5 configurations per sequence) applied to genuine signatures of RSASSA-PKCS1-v1_5 and RSASSA-PSS (moduli of 768, 1024, 1025, 1033 bits, e = 65537 and 3; thorough also "
+                "2 configurations per sequence) applied to genuine signatures of RSASSA-PKCS1-v1_5 and RSASSA-PSS (moduli of 768, 1024, 1025, 1033 bits, e = 65537 and 3; thorough also "
                 "1536, 2048, 2049), DSA (1024/160, 2048/224, 2048/256, 3072/256) and ECDSA (P-192 .. P-521) in FIPS 186 and RFC 6979 modes with binary and DER encodings, "
                 "Ed25519 / Ed448 pure and prehashed with empty, 1-, 3- and 255-octet contexts; hashes MD5, SHA-1, SHA-2 (incl. SHA-512/t), SHA-3; salts 0, 1, 20, hLen, maximal; "
                 "messages of 0..200 octets.  sign: sign; sign on every scheme x key x mode.  raw: EccKey._sign / _verify on secp112r1 / secp128r1.  "
